@@ -8,6 +8,7 @@ package simhook
 import (
 	"context"
 	"net"
+	"sync"
 	"sync/atomic"
 )
 
@@ -57,6 +58,46 @@ func set[T any](p *atomic.Pointer[T], f T, isNil bool) {
 		return
 	}
 	p.Store(&f)
+}
+
+// Mutex replaces a [sync.Mutex] which is held while waiting for the network or
+// for time to pass: waiting for it blocks on a channel, which the simulator's
+// fake clock understands (a goroutine waiting for a sync.Mutex keeps simulated
+// time from advancing).
+type Mutex struct {
+	once sync.Once
+	ch   chan struct{}
+}
+
+func (m *Mutex) init() {
+	m.once.Do(func() { m.ch = make(chan struct{}, 1) })
+}
+
+// Lock locks m.
+func (m *Mutex) Lock() {
+	m.init()
+	m.ch <- struct{}{}
+}
+
+// TryLock tries to lock m.
+func (m *Mutex) TryLock() bool {
+	m.init()
+	select {
+	case m.ch <- struct{}{}:
+		return true
+	default:
+		return false
+	}
+}
+
+// Unlock unlocks m.
+func (m *Mutex) Unlock() {
+	m.init()
+	select {
+	case <-m.ch:
+	default:
+		panic("simhook: unlock of unlocked Mutex")
+	}
 }
 
 // At is a scheduling point.
